@@ -4,7 +4,7 @@ C05, part 6: every node kind preserves the invariant `CompRes p code p'` (pool s
 emitted fragment is `Frag`-well-formed against the final pool) — one lemma per node kind, taking the
 invariant of the sub-nodes as hypotheses.  Builtins: CompileWfB.lean; the recursion: CompileWf.lean.
 -/
-namespace ExprModel
+namespace ExprModel.Bc
 
 theorem cr_bind_ok {α β : Type} {x : CR α} {f : α → CR β} {b : β} (h : (x >>= f) = .ok b) :
     ∃ a, x = .ok a ∧ f a = .ok b := by
@@ -345,4 +345,4 @@ theorem nodeWf_list_cons (cfg : CompCfg) (n : Node) (ns : List Node) (hn : NodeW
   cr_fin h
   exact r1.seq r2
 
-end ExprModel
+end ExprModel.Bc
